@@ -224,10 +224,21 @@ def unfold(ctx, seg):
             return [Lit(concrete(d, v))]
         v = zint(v)
         maxb = 10
-        for n in range(1, maxb):
-            if ctx.decide(v < 128 ** n):
-                return uv_bytes(v, n)
-        return uv_bytes(v, maxb)
+        n = maxb
+        for k_ in range(1, maxb):
+            if ctx.decide(v < 128 ** k_):
+                n = k_
+                break
+        # the n base-128 digits of v, least significant first, as fresh integers tied to v by
+        # linear constraints (they are uniquely determined, so this is a definitional extension)
+        gs = [ctx.int_const(ctx.fresh("g"), 0, 127) for _ in range(n)]
+        tot = gs[0]
+        for i in range(1, n):
+            tot = tot + gs[i] * (128 ** i)
+        ctx.assume(v == tot)
+        if n > 1:
+            ctx.assume(gs[-1] >= 1)
+        return [Byte(g + 128) for g in gs[:-1]] + [Byte(gs[-1])]
     if k == "sv":
         v = args[0]
         return [Enc(("uv",), lower(zz(zint(v), d[1])) if not isinstance(v, int) else zz(v, d[1]))]
@@ -396,3 +407,67 @@ def concrete(d, v):
             return b"\xff"
         return b"\x01" + concrete(("ent", d[1]), v)
     raise Undecided(f"concrete {d}")
+
+
+# ------------------------------------------------------------------------------ concrete decoding
+def parse_concrete(d, b):
+    """decode a canonical encoding under descriptor d from the front of concrete bytes;
+    returns (value, consumed) or None when b does not start with a canonical encoding"""
+    import uuid as _uuid
+    k = d[0]
+    try:
+        if k in ("be", "le"):
+            if len(b) < d[1]:
+                return None
+            return int.from_bytes(b[:d[1]], "big" if k == "be" else "little", signed=d[2]), d[1]
+        if k == "bool":
+            if len(b) < 1 or b[0] not in (0, 1):
+                return None
+            return bool(b[0]), 1
+        if k == "uv":
+            v = 0
+            for i in range(min(10, len(b))):
+                v |= (b[i] & 0x7F) << (7 * i)
+                if b[i] < 128:
+                    if concrete(d, v) != b[:i + 1]:
+                        return None
+                    return v, i + 1
+            return None
+        if k == "clen":
+            r = parse_concrete(("uv",), b)
+            return None if r is None else (r[0] - 1, r[1])
+        if k == "sv":
+            r = parse_concrete(("uv",), b)
+            if r is None:
+                return None
+            z = r[0]
+            return ((z >> 1) if z % 2 == 0 else -((z + 1) >> 1)), r[1]
+        if k in ("ncbytes", "ncstr", "cbytes", "cstr"):
+            r = parse_concrete(("uv",), b)
+            if r is None:
+                return None
+            n, c = r[0] - 1, r[1]
+            if n == -1:
+                return (None, c) if k[0] == "n" else None
+            if len(b) < c + n:
+                return None
+            u = b[c:c + n]
+            return (u.decode() if "str" in k else u), c + n
+        if k in ("nlbytes", "nlstr", "lbytes", "lstr"):
+            w = 2 if "str" in k else 4
+            if len(b) < w:
+                return None
+            n = int.from_bytes(b[:w], "big", signed=True)
+            if n == -1:
+                return (None, w) if k[0] == "n" else None
+            if n < 0 or len(b) < w + n:
+                return None
+            u = b[w:w + n]
+            return (u.decode() if "str" in k else u), w + n
+        if k == "uuid":
+            if len(b) < 16:
+                return None
+            return (None if b[:16] == bytes(16) else _uuid.UUID(bytes=b[:16])), 16
+    except (UnicodeDecodeError, ValueError):
+        return None
+    return None
